@@ -34,6 +34,33 @@ CLAIMED = {
             "compared with the model only.", TECH, "DESIGN.md 6/C17"),
 }
 
+CLAIMED.update({
+    "C01": ("proof",
+            "Literal Lean model of pixman-combine32.{h,c} (macros regenerated from the header with bridge theorems); every channel of "
+            "every Porter-Duff/ADD combiner, unified and component alpha, early-outs included, proved equal to the Render equations "
+            "(round-to-nearest products, saturating sums) for all pixel values; lane theorems for all UN8x4 macros; "
+            "pixman_image_composite32 replayed through the model on ~1.5e7 pixel cases over 21 formats and 2 implementation chains "
+            "plus an independent C spec oracle.",
+            TB + "Partial: the seven non-MULTIPLY integer blend modes only structurally (+0.5-step oracle); operators/formats evaluated "
+            "in floating point (SATURATE, DISJOINT/CONJOINT, dodge/burn/soft-light/HSL, 10-bit/sRGB/float formats) are not covered by "
+            "theorems; SIMD loop structure exercised, not modelled.", TECH, "DESIGN.md 6/C01"),
+    "C09": ("proof",
+            "operator_table and optimize_operator regenerated from pixman.c; for every row and opacity cell (except SATURATE) the "
+            "replacement operator is proved to give identical channels under that opacity assumption, for all pixels; mask elision "
+            "proved; paired presentations of the same opaque content (x8r8g8b8 / alpha 255 / solid / repeating) composited through "
+            "the library must be bit-identical and equal the model.",
+            TB + "Partial: SATURATE row accepted unproved (float pipeline); the opacity flag computation is proved only for bits "
+            "formats without alpha and solid alpha 255; transforms/filters/partly-outside rectangles are not generated here (C08/C04).",
+            TECH, "DESIGN.md 6/C09"),
+    "C11": ("proof",
+            "Model of pixman-matrix.c with C integer widths; 128/48-bit schoolbook division proved exact to nearest, affine and "
+            "small-w projective transform_point exactly rounded with FALSE iff unrepresentable, never aborts, multiply/scale/rotate/"
+            "translate as per-term rounded products with exact overflow reporting, bounds contains all corners; ~1e6 forked-child "
+            "requests incl. white-box static helpers replayed through the model, exact __int128 oracle.",
+            TB + "Partial: |w| >= 65536 only within one unit (transformPoint_within_one_partial); float entry points and invert are "
+            "oracle/correspondence only (IEEE arithmetic is not modelled in the kernel).", TECH, "DESIGN.md 6/C11"),
+})
+
 REASON_PENDING = "not yet claimed: check under construction (DESIGN.md section 6)"
 
 
